@@ -880,8 +880,31 @@ catalogue! {
 #[nutype(derive(Debug, Arbitrary))]
 pub struct AnyGeneric<T>(T);
 
+// A generic newtype WITH a sanitizer: Arbitrary goes through `new`. (A parameter with a trait bound,
+// e.g. `SortedSet<T: Ord>`, cannot derive Arbitrary on the pinned tree at all: the generated impl
+// drops the bound and rustc rejects it - not a C09 matter, so no such declaration here.)
+#[nutype(sanitize(with = |mut v: Vec<T>| { v.truncate(2); v }), derive(Debug, Arbitrary))]
+pub struct AtMostTwo<T>(Vec<T>);
+
 pub fn registry_generic() -> Vec<ArbDecl> {
     vec![ArbDecl {
+        name: "AtMostTwo<u16>",
+        family: "any",
+        text: "sanitize(with = |mut v: Vec<T>| { v.truncate(2); v }), derive(Debug, Arbitrary)  // struct AtMostTwo<T>(Vec<T>), T = u16",
+        run: |bytes: &[u8], rest: bool| {
+            let mut u = Unstructured::new(bytes);
+            let res = if rest { <AtMostTwo<u16> as Arbitrary>::arbitrary_take_rest(Unstructured::new(bytes)) } else { <AtMostTwo<u16> as Arbitrary>::arbitrary(&mut u) };
+            match res {
+                Ok(v) => {
+                    let consumed = if rest { bytes.len() } else { bytes.len() - u.len() };
+                    let inner = v.into_inner();
+                    ArbOutcome::Value { repr: format!("{:?}", inner), valid: inner.len() <= 2, class: "inside", consumed }
+                }
+                Err(e) => ArbOutcome::ArbError(format!("{e:?}")),
+            }
+        },
+        classify: |_s| "inside",
+    }, ArbDecl {
         name: "AnyGeneric<(u16,String)>",
         family: "any",
         text: "derive(Debug, Arbitrary)  // struct AnyGeneric<T>(T), T = (u16, String)",
